@@ -284,7 +284,13 @@ class StmtMixin:
         ci.keywords.update({k.arg: self.eval(k.value, fr) for k in st.keywords})
         self.classify(ci)
         # bind early so that methods can refer to the class being defined via closures
-        body_fr = Frame(fr.module, ci.attrs, closure=(None if getattr(fr, 'is_module', False) else fr), func=fr.func, cls_body=ci)
+        outer = None if getattr(fr, 'is_module', False) else fr
+        if getattr(st, 'type_params', None):
+            # PEP 695 type parameters live in a scope that encloses the class body (and is visible to functions
+            # nested in it)
+            outer = Frame(fr.module, {tp.name: Ext('typing.TypeVar:' + tp.name) for tp in st.type_params}, closure=outer, func=fr.func)
+        ci.outer_frame = outer
+        body_fr = Frame(fr.module, ci.attrs, closure=outer, func=fr.func, cls_body=ci)
         if ci.enum_kind:
             body_fr.enum_auto = 0
         if fr.cls_body is not None or not getattr(fr, 'is_module', False):
